@@ -74,11 +74,27 @@ def conf_name(c):
                                      "".join("1" if c["flags"][f] else "0" for f in FLAGS))
 
 
+def harness_env(ctx, home):
+    """Environment of vh-lspsched.  didChange / didSave maintain a pid-lock file (property C25, not this one)
+    and call `ps -p <pid>` several times per notification; the real ps scans all of /proc (0.5 s per call
+    on a busy machine).  A stand-in that answers from /proc/<pid> keeps the replays fast."""
+    bind = os.path.join(ctx.work, "bin")
+    os.makedirs(bind, exist_ok=True)
+    ps = os.path.join(bind, "ps")
+    if not os.path.exists(ps):
+        with open(ps, "w") as f:
+            f.write('#!/bin/sh\necho "    PID TTY          TIME CMD"\n'
+                    'if [ "$1" = "-p" ] && [ -d "/proc/$2" ]; then echo "$2 ?        00:00:00 lsp"; exit 0; fi\nexit 1\n')
+        os.chmod(ps, 0o755)
+    os.makedirs(home, exist_ok=True)
+    return {"HOME": home, "PATH": bind + os.pathsep + os.environ.get("PATH", "")}
+
+
 # ------------------------------------------------------------------------------------ measuring
 def measure(ctx):
     out = os.path.join(ctx.work, "measure.ndjson")
     ctx.vh("vh-lspsched", ["--mode", "measure", "--work", ctx.work, "--out", out],
-           env={"HOME": ctx.tmp}, timeout=300)
+           env=harness_env(ctx, os.path.join(ctx.tmp, "home-measure")), timeout=600)
     recs = read_ndjson(out)
     ph = {r["phase"]: r for r in recs if r["ev"] == "Measure"}
     ph["tails"] = [r for r in recs if r["ev"] == "Tails"][0]
@@ -125,68 +141,62 @@ def edge_graph(ctx, c, name):
 
 
 def covering_schedules(init, edges):
-    """Schedules (init -> terminal state) that together take every edge at least once."""
+    """Schedules (init -> terminal state) that together take every transition at least once.
+    Greedy walks from the initial state: take an untaken transition if the current state has one,
+    otherwise head for the nearest state that has one; finish at a terminal state."""
     out = {}
     for i, e in enumerate(edges):
         out.setdefault(e["f"], []).append(i)
-    # shortest path tree from init (edge indices)
-    parent = {init: None}
-    order = [init]
-    for s in order:
-        for i in out.get(s, []):
-            t = edges[i]["t"]
-            if t not in parent:
-                parent[t] = i
-                order.append(t)
-    # distance to a terminal state (for finishing a schedule quickly): reverse BFS
     rev = {}
     for i, e in enumerate(edges):
         rev.setdefault(e["t"], []).append(i)
     term_states = set(e["t"] for e in edges if e["term"])
-    finish = {s: None for s in term_states}
-    q = list(term_states)
-    for s in q:
-        for i in rev.get(s, []):
-            f = edges[i]["f"]
-            if f not in finish:
-                finish[f] = i
-                q.append(f)
 
-    def prefix(s):
-        p = []
-        while parent[s] is not None:
-            p.append(parent[s])
-            s = edges[parent[s]]["f"]
-        return p[::-1]
+    def toward(targets):
+        """next[s] = edge to take from s on a shortest path to a state in targets"""
+        nxt = {s: None for s in targets}
+        q = list(targets)
+        for s in q:
+            for i in rev.get(s, []):
+                f = edges[i]["f"]
+                if f not in nxt:
+                    nxt[f] = i
+                    q.append(f)
+        return nxt
 
+    finish = toward(term_states)
     covered = [False] * len(edges)
+    left = len(edges)
     scheds = []
-    for i in range(len(edges)):
-        if covered[i]:
-            continue
-        if edges[i]["f"] not in parent:
-            continue  # unreachable (cannot happen: TLC only prints reachable transitions)
-        path = prefix(edges[i]["f"]) + [i]
-        s = edges[i]["t"]
-        seen_here = set()
-        while s not in term_states or any(not covered[j] and j not in path for j in out.get(s, [])):
-            nxt = [j for j in out.get(s, []) if not covered[j] and j not in seen_here]
-            if nxt:
-                j = nxt[0]
-            elif s in term_states:
-                break
+    while left:
+        open_states = set(edges[i]["f"] for i in range(len(edges)) if not covered[i])
+        guide = toward(open_states)
+        if init not in guide:
+            raise ToolError("edge cover: %d transitions cannot be reached from the initial state" % left)
+        path, s, gained = [], init, 0
+        while len(path) < 600:
+            fresh = [j for j in out.get(s, []) if not covered[j]]
+            if fresh:
+                j = fresh[0]
             else:
-                j = finish.get(s)
+                # nothing untaken here: go on towards untaken transitions if reachable, else finish
+                j = guide.get(s) if guide.get(s) is not None else finish.get(s)
                 if j is None:
-                    break  # no terminal state reachable: keep the schedule as it is
+                    break
+            if not covered[j]:
+                covered[j] = True
+                left -= 1
+                gained += 1
+                # keep the guide honest: a state whose last untaken transition was just taken is no target any more
+                if not any(not covered[k] for k in out.get(s, [])):
+                    open_states.discard(s)
+                    guide = toward(open_states) if open_states else {}
             path.append(j)
-            seen_here.add(j)
-            covered[j] = True
             s = edges[j]["t"]
-            if len(path) > 400:
+            if s in term_states and not out.get(s):
                 break
-        for j in path:
-            covered[j] = True
+        if gained == 0:
+            raise ToolError("edge cover makes no progress (%d transitions left)" % left)
         scheds.append([{"thr": edges[j]["thr"], "point": edges[j]["point"], "pos": edges[j]["pos"]} for j in path])
     return scheds
 
@@ -221,9 +231,8 @@ def replay_and_validate(ctx, scheds, c, label, shards=4):
         write_ndjson(inp, part)
         # a HOME of its own: didChange runs `ps` for every pid-lock file it finds in ~/.forc/.lsp-locks
         home = os.path.join(ctx.tmp, "home-%s-%d" % (label, i))
-        os.makedirs(home, exist_ok=True)
         ctx.vh("vh-lspsched", ["--mode", "replay", "--work", os.path.join(ctx.work, "r-%s-%d" % (label, i)),
-                               "--in", inp, "--out", outp, "--timeout-ms", "90000"], env={"HOME": home},
+                               "--in", inp, "--out", outp, "--timeout-ms", "90000"], env=harness_env(ctx, home),
                timeout=600 + 3 * len(part))
         return read_ndjson(outp)
 
@@ -384,7 +393,7 @@ def run(ctx):
     else:
         mc_list = [(0, 0, 1), (1, 0, 1), (2, 0, 1), (3, 0, 1), (0, 1, 1), (1, 1, 1), (2, 1, 1), (1, 0, 2), (2, 0, 2), (0, 1, 2)]
         real_list = [(0, 0, 1), (1, 0, 1), (2, 0, 1), (0, 1, 1), (1, 1, 1)]
-        live_list = [(0, 0, 1), (1, 0, 1), (2, 0, 1), (0, 1, 1), (1, 1, 1)]
+        live_list = [(0, 0, 1), (1, 0, 1), (0, 1, 1), (1, 1, 1)]
         edge_list = [(0, 0, 1), (1, 0, 1), (0, 1, 1)]
         sim_list = [((1, 1, 1), 11, 150), ((2, 1, 1), 12, 200), ((3, 1, 2), 13, 200), ((2, 0, 2), 14, 100)]
     vac_list = [
